@@ -101,6 +101,8 @@ func handle(p []string) (res string) {
 		return opFrame(p[1:])
 	case "roundtrip":
 		return opRoundtrip(p[1:])
+	case "unmbytes":
+		return opUnmBytes(p[1:])
 	case "remarshal":
 		return opRemarshal(p[1:])
 	case "clone":
